@@ -165,6 +165,14 @@ func (env *c12env) eval(s *Sexp) error {
 		return ers.Join(env.children(args)...)
 	case "X":
 		return ers.Wrap(env.eval(args[1]), fmt.Sprintf("L%d", args[0].Int()))
+	case "UWS":
+		// errors.Unwrap of a *ers.Stack hands out an inner node of the chain (only the head node carries a
+		// count); used as an operand it stands for the remaining items
+		e := env.eval(args[0])
+		if st, ok := e.(*ers.Stack); ok && st != nil {
+			return errors.Unwrap(st)
+		}
+		return e
 	case "V":
 		// the operand is looked at before it is used: observations must not change it
 		e := env.eval(args[0])
